@@ -37,4 +37,46 @@ def isMatch : SAEntry → Bool
 def SaSpec (a : AddrKind) (es : List SAEntry) : Prop :=
   a = .tcp ∧ ∃ pre x post, es = pre ++ x :: post ∧ isMatch x = true ∧ ∀ y ∈ pre, y ≠ .bad
 
+/-! ## OpenSSH's rule, as read from addrmatch.c `addr_match_cidr_list(addr, list)`
+
+  (used by sshd for the certificate source-address option: auth-options.c / auth2-pubkey.c)
+  ```
+  ret = 0
+  for each cp in strsep(list, ","):
+     empty entry, too long, characters outside "0-9a-fA-F.:/"       -> ret = -1; break
+     addr_pton_cidr(cp) fails (-1) or has host bits set (-2)        -> ret = -1; break
+     else if addr_netmatch(addr, entry, masklen) == 0               -> ret = 1      (and go on)
+  return ret          -- 1 = match, 0 = no match, -1 = error (the option is treated as invalid: denied)
+  ```
+  So OpenSSH wants EVERY entry to be valid and SOME entry to match; a bad entry after a match
+  still turns the result into an error.  Go's `checkSourceAddress` returns at the first match. -/
+
+/-- how OpenSSH classifies one entry against the peer address -/
+inductive Ossh where
+  | matches | noMatch | invalid
+deriving DecidableEq, Repr, Inhabited
+
+inductive OsshRes where
+  | accept | deny | error
+deriving DecidableEq, Repr, Inhabited
+
+def osshWalk (ret : OsshRes) : List Ossh → OsshRes
+  | [] => ret
+  | .invalid :: _ => .error
+  | .matches :: rest => osshWalk .accept rest
+  | .noMatch :: rest => osshWalk ret rest
+
+/-- `addr_match_cidr_list` -/
+def osshList (es : List Ossh) : OsshRes := osshWalk .deny es
+
+/-- one entry seen by both implementations -/
+structure Entry2 where
+  go : SAEntry
+  ossh : Ossh
+deriving DecidableEq, Repr, Inhabited
+
+/-- the two entry-level classifications agree (same parse verdict, same match verdict) -/
+def Entry2.agree (e : Entry2) : Bool :=
+  (isMatch e.go == (e.ossh == .matches)) && ((e.go == .bad) == (e.ossh == .invalid))
+
 end XC.C33
